@@ -400,6 +400,9 @@ class World:
         fs = self.solver.get("first_step")
         if fs is not None:
             kw["first_step_frac"] = fs
+        ms = self.solver.get("max_step")
+        if ms is not None:
+            kw["max_step_frac"] = ms
         return kw
 
     # ---- reference model pieces
@@ -467,6 +470,9 @@ class World:
         fsf = kw.pop("first_step_frac", None)
         if fsf is not None:
             kw["first_step"] = abs(t1 - t0) * fsf
+        msf = kw.pop("max_step_frac", None)
+        if msf is not None:
+            kw["max_step"] = abs(t1 - t0) * msf
         return obj.update_orientations(
             params,
             F_in,
@@ -685,6 +691,9 @@ class World:
             fsfd = kwd.pop("first_step_frac", None)
             if fsfd is not None:
                 kwd["first_step"] = abs(t1d - t0d) * fsfd
+            msfd = kwd.pop("max_step_frac", None)
+            if msfd is not None:
+                kwd["max_step"] = abs(t1d - t0d) * msfd
             try:
                 pydrex.update_all(twins, self.paramsets[qi], lead.F.copy(), cb0.L, (t0d, t1d, cb0.pos),
                                   get_regime=cb0.regime if rf is not None else None, **kwd)
@@ -704,6 +713,9 @@ class World:
         fsf = kw.pop("first_step_frac", None)
         if fsf is not None:
             kw["first_step"] = abs(t1 - t0) * fsf
+        msf = kw.pop("max_step_frac", None)
+        if msf is not None:
+            kw["max_step"] = abs(t1 - t0) * msf
         _tls.solver_count = cnt = {}
         try:
             F_out = pydrex.update_all(
